@@ -646,6 +646,42 @@ def uri_projection(o):
     return o
 
 
+def logical_lines(text):
+    """lines of a PROV-N text, not splitting inside a string literal (a triple-quoted literal may contain newlines)"""
+    out, cur, i, n, mode = [], [], 0, len(text), None      # mode: None | '"' | '\"\"\"'
+    while i < n:
+        ch = text[i]
+        if mode is None:
+            if text.startswith('\"\"\"', i):
+                mode = '\"\"\"'
+                cur.append('\"\"\"')
+                i += 3
+                continue
+            if ch == '"':
+                mode = '"'
+            elif ch == "\n":
+                out.append("".join(cur))
+                cur = []
+                i += 1
+                continue
+        else:
+            if ch == "\\" and i + 1 < n:
+                cur.append(text[i:i + 2])
+                i += 2
+                continue
+            if mode == '"' and ch == '"':
+                mode = None
+            elif mode == '\"\"\"' and text.startswith('\"\"\"', i):
+                mode = None
+                cur.append('\"\"\"')
+                i += 3
+                continue
+        cur.append(ch)
+        i += 1
+    out.append("".join(cur))
+    return out
+
+
 def diff_outputs(ops, impl_outs, model_outs):
     """first index where implementation and model disagree, else None.
     Observations of containers are compared at prefix level; a difference that vanishes at URI level is an admissible
@@ -692,7 +728,7 @@ def diff_outputs(ops, impl_outs, model_outs):
             from . import jsontree
             b = {"tree": jsontree.canon_tagged(b["tree"])}
         if a != b and ops[i]["op"] in ("provn", "provn_rec") and a.get("text") is not None and b.get("text") is not None:
-            la, lb = a["text"].split("\n"), b["text"].split("\n")
+            la, lb = logical_lines(a["text"]), logical_lines(b["text"])
             if len(la) == len(lb) and all(sorted(x) == sorted(y) for x, y in zip(la, lb)):
                 DIVERGENCES["attribute-order-in-provn"] = DIVERGENCES.get("attribute-order-in-provn", 0) + 1
                 continue          # same characters line by line: only the set iteration order of attribute values differs
